@@ -12,10 +12,26 @@
 (*          each record: events (the main run), devs (documented deviations whose trigger occurs  *)
 (*          in the AST), variants (counterfactual runs <<without, events>> with the triggers       *)
 (*          removed; used for attribution only, as in TraceC05);                                   *)
+(*   runs   also: the same for ASTs read from stub TEXT through SourceToExportableAst under the    *)
+(*          module names ExportStubs.tla enumerates (mixed class-pointer state), with the steps      *)
+(*          Again / Reorder; and, as separate records with line = "nodes", the node line Hash ->     *)
+(*          Clear -> Found of the same execution;                                                    *)
+(*   ct     the term list in the ClassType dialect (checked here to be CtDialect of terms);         *)
+(*   xrows  like rows, but node_a is built from ct[a] with its class pointers FILLED IN by the real  *)
+(*          visitors and node_j from ct[j] WITHOUT pointers: the law across pointer states;          *)
+(*   life   for term number a: the life of ONE node object built from ct[a]: steps                   *)
+(*          <<[op, ptr, h, inset, eq]>> for op = Fill, Clear (Serialize of the holding AST),         *)
+(*          Decode (the copy DecodeAst builds), Refill (pointers filled in on the copy); ptr = the    *)
+(*          observed pointer state ("r" all filled, "u" none filled, "m" mixed, "-" no pointer), h =   *)
+(*          hash, inset = found in a set built after Fill, eq = equal to the original object.         *)
 (* Verdicts (BAD lines):  runs: C12Fails(art) of the main run + attr.  rows, for every j:          *)
 (*   eqm   (a == b) # SpecEq(a, b)              equality is not the specified one                  *)
 (*   hash  a == b but hash(a) # hash(b)         equal nodes must hash equally                      *)
 (*   set   a == b but {a, b} keeps both          de-duplication keeps two equal types               *)
+(* xrows: the same three clauses against SpecEq of the dialect forms.  life: moved (the hash     *)
+(* differs from the hash after Fill), lost (not found in the set), uneq (not equal to the           *)
+(* original), proto (the recorded steps are not LifeOps / the pointer state is not the one the       *)
+(* spec's life prescribes: machinery).                                                              *)
 (* together with the discriminators of the known findings, computed here:                          *)
 (*   variant  the failing j where the two terms differ only by order / repetition / nesting of     *)
 (*            union members (OrderVariant)                                                         *)
@@ -27,6 +43,10 @@ TraceData == JsonDeserialize(IOEnv.TRACE_FILE)
 Runs == TraceData.runs
 Terms == TraceData.terms
 Rows == TraceData.rows
+CtTerms == TraceData.ct
+XRows == TraceData.xrows
+Life == TraceData.life
+NRows == Len(Rows) + Len(XRows) + Len(Life)
 
 VARIABLES i,      \* run record (one AST)
           v,      \* run of the record: 1 = main, 1 + x = counterfactual variant x
@@ -42,12 +62,18 @@ Apply(e) ==
     [] e.op = "Decode"      -> DecodeBytes(e.ok, e.d, e.e)
     [] e.op = "Reencode"    -> ReencodeObj(e.ok, e.d)
     [] e.op = "Reserialize" -> ReserializeAst(e.ok, e.d)
+    [] e.op = "Again"       -> SerializeAgain(e.ok, e.d)
+    [] e.op = "Reorder"     -> ReorderDecoded(e.ok, e.d)
+    [] e.op = "Hash"        -> HashNodes(e.ok, e.d)
+    [] e.op = "Clear"       -> ClearNodes(e.ok, e.d, e.e)
+    [] e.op = "Found"       -> FoundNodes(e.ok, e.d, e.e)
 
 NRuns(c) == 1 + Len(c.variants)
+LineOf(n) == IF n <= Len(Runs) THEN Runs[n].line ELSE "bytes"
 Events(c, r) == IF r = 1 THEN c.events ELSE c.variants[r - 1].events
 
 TInit == /\ i = 1 /\ v = 1 /\ k = 0 /\ acc = <<>> /\ j = 0
-         /\ line = "bytes" /\ phase = "start" /\ art = Art0
+         /\ line = LineOf(1) /\ phase = "start" /\ art = Art0
          /\ pair = <<AnyT, AnyT>> /\ TLCSet(1, FALSE)
 
 StepEvent ==
@@ -60,16 +86,16 @@ RunFails == C12Fails(art) \cup (IF Ended THEN {} ELSE {"incomplete"})
 NextVariant ==
   /\ i <= Len(Runs) /\ k = Len(Events(Runs[i], v)) /\ v < NRuns(Runs[i])
   /\ acc' = Append(acc, RunFails)
-  /\ v' = v + 1 /\ k' = 0 /\ Start("bytes") /\ UNCHANGED <<i, j, pair>>
+  /\ v' = v + 1 /\ k' = 0 /\ Start(LineOf(i)) /\ UNCHANGED <<i, j, pair>>
 
 NextRun ==
   /\ i <= Len(Runs) /\ k = Len(Events(Runs[i], v)) /\ v = NRuns(Runs[i])
-  /\ i' = i + 1 /\ v' = 1 /\ k' = 0 /\ acc' = <<>> /\ Start("bytes") /\ UNCHANGED <<j, pair>>
+  /\ i' = i + 1 /\ v' = 1 /\ k' = 0 /\ acc' = <<>> /\ Start(LineOf(i + 1)) /\ UNCHANGED <<j, pair>>
 
 NextRow ==
-  /\ i > Len(Runs) /\ j <= Len(Rows)
+  /\ i > Len(Runs) /\ j <= NRows
   /\ j' = j + 1 /\ UNCHANGED <<i, v, k, acc, pair, rvars>>
-  /\ (j' > Len(Rows) => TLCSet(1, TRUE))
+  /\ (j' > NRows => TLCSet(1, TRUE))
 
 TNext == StepEvent \/ NextVariant \/ NextRun \/ NextRow
 
@@ -89,7 +115,10 @@ RunVerdict ==
     [run |-> i, id |-> c.id, fails |-> main, attr |-> attr]
 
 (* the rows were computed for exactly the terms the specification enumerates *)
-TermsBound == Rows = <<>> \/ ToSetT(Terms) = AllTerms
+TermsBound ==
+  /\ Rows = <<>> \/ ToSetT(Terms) = AllTerms
+  /\ (XRows = <<>> /\ Life = <<>>) \/
+       (Len(CtTerms) = Len(Terms) /\ \A x \in DOMAIN Terms : CtTerms[x] = CtDialect(Terms[x]))
 
 RowVerdict(r) ==
   LET a == Terms[r.a]
@@ -104,6 +133,33 @@ RowVerdict(r) ==
      litvar |-> {x \in bad : LitVariant(a, Terms[x])},
      nvariants |-> Cardinality({x \in N : OrderVariant(a, Terms[x])})]
 
+(* the law across pointer states: node_a with pointers against node_x without *)
+XRowVerdict(r) ==
+  LET a == CtTerms[r.a]
+      N == DOMAIN CtTerms
+      EQ == ToSetT(r.eq)
+      eqm  == {x \in N : (x \in EQ) # SpecEq(a, CtTerms[x])}
+      hash == ToSetT(r.hne) \cap EQ
+      set  == ToSetT(r.keep) \cap EQ
+      bad  == eqm \cup hash \cup set IN
+    [xa |-> r.a, eqm |-> eqm, hash |-> hash, set |-> set,
+     litvar |-> {x \in eqm : LitVariant(a, CtTerms[x])},
+     \* equal pairs in which a pointer is really involved (vacuity measure)
+     nptr |-> IF HasPtr(a) THEN Cardinality({x \in N : SpecEq(a, CtTerms[x])}) ELSE 0]
+
+LifeVerdict(r) ==
+  LET a == CtTerms[r.a]
+      s == r.steps
+      K == DOMAIN s
+      want(op) == IF HasPtr(a) THEN PtrAfter(op) ELSE "-" IN
+    [la |-> r.a,
+     proto |-> {x \in K : x > Len(LifeOps) \/ s[x].op # LifeOps[x] \/ s[x].ptr # want(s[x].op)}
+               \cup (IF Len(s) = Len(LifeOps) THEN {} ELSE {0}),
+     moved |-> {x \in K : s[x].h # s[1].h},
+     lost  |-> {x \in K : ~s[x].inset},
+     uneq  |-> {x \in K : ~s[x].eq},
+     ptr   |-> HasPtr(a)]
+
 Ok ==
   /\ AtEnd => LET r == RunVerdict IN r.fails = {} \/ PrintT(<<"BAD", ToJson(r)>>)
   /\ (i <= Len(Runs) /\ v = 1 /\ k = Len(Runs[i].events)) =>
@@ -114,6 +170,14 @@ Ok ==
        LET rv == RowVerdict(Rows[j]) IN
          /\ PrintT(<<"ROW", ToJson([a |-> rv.a, nvariants |-> rv.nvariants])>>)
          /\ (rv.eqm = {} /\ rv.hash = {} /\ rv.set = {}) \/ PrintT(<<"BAD", ToJson(rv)>>)
+  /\ (i > Len(Runs) /\ j > Len(Rows) /\ j <= Len(Rows) + Len(XRows)) =>
+       LET rv == XRowVerdict(XRows[j - Len(Rows)]) IN
+         /\ PrintT(<<"XROW", ToJson([a |-> rv.xa, nptr |-> rv.nptr])>>)
+         /\ (rv.eqm = {} /\ rv.hash = {} /\ rv.set = {}) \/ PrintT(<<"BAD", ToJson(rv)>>)
+  /\ (i > Len(Runs) /\ j > Len(Rows) + Len(XRows) /\ j <= NRows) =>
+       LET rv == LifeVerdict(Life[j - Len(Rows) - Len(XRows)]) IN
+         /\ PrintT(<<"LIFE", ToJson([a |-> rv.la, ptr |-> rv.ptr])>>)
+         /\ (rv.proto = {} /\ rv.moved = {} /\ rv.lost = {} /\ rv.uneq = {}) \/ PrintT(<<"BAD", ToJson(rv)>>)
 
 Done == TLCGet(1)
 =============================================================================
